@@ -646,6 +646,19 @@ func c09Crafted(rng *core.RNG) []c09Blob {
 	for _, f := range hostileSpecials() {
 		add("load", f.Truth.Format, f.Bytes, "special: "+f.Name)
 	}
+	// long runs of one byte value where a parser expects structure (fill bytes, zero lengths)
+	for _, fill := range []byte{0xFF, 0x00, 0xD8} {
+		for _, n := range []int{1 << 16, 1 << 20, 32 << 20} {
+			run := bytes.Repeat([]byte{fill}, n)
+			tailj := []byte{0xFF, 0xC0, 0, 11, 8, 0, 5, 0, 7, 1, 1, 0x11, 0, 0xFF, 0xD9}
+			add("load", "JPEG", append(append([]byte{0xFF, 0xD8}, run...), tailj...), fmt.Sprintf("long-run: JPEG SOI then %d bytes of %#02x", n, fill))
+			if n <= 1<<20 {
+				add("load", "PNG", append(append(append([]byte{}, imggen.PNGSig...), run...), 0), fmt.Sprintf("long-run: PNG signature then %d bytes of %#02x", n, fill))
+				add("load", "WebP", append([]byte("RIFF\xff\xff\xff\x7fWEBP"), run...), fmt.Sprintf("long-run: RIFF/WEBP then %d bytes of %#02x", n, fill))
+				add("icc", "ICC", append(func() []byte { h := imggen.MinimalHeader(true); return h[:] }(), run...), fmt.Sprintf("long-run: ICC header then %d bytes of %#02x", n, fill))
+			}
+		}
+	}
 	// JPEG: 255 ICC chunks each of 1 byte, then each a full segment
 	{
 		var segs []imggen.JPEGSeg
